@@ -220,6 +220,70 @@ def sec_postcollect(ck):
              replay=lambda res: concrete.replay_outputs(trp, Sp, res, uf_apps=itp.uf_apps, oracle=oracle), nonlinear=True)
 
 
+def sec_collected_rollout(ck, S_=2):
+    """the advantages/returns of a COLLECTED rollout are cut at the episode ends of the interaction itself (terminal or truncated, as determined by
+    the environment), not at whatever the buffer happens to store: collect_rollout over an uninterpreted environment under a TimeLimit"""
+    from fractions import Fraction
+    from jaxsmt import concrete as cc
+    from props.C04 import GAMMA, OnPolicyStep, empty_callback, find, make, world_of
+    from props.rollout_ref import keys_of, onpolicy_step
+    from lerax.algorithm import PPO
+    for kind in ("discrete",):
+        env, pol = make(kind, False, True)
+        algo = PPO(num_envs=1, num_steps=S_, num_batches=1, num_epochs=1, gamma=GAMMA, gae_lambda=0.5)
+        cb = empty_callback()
+        st = OnPolicyStep.example(env, pol, cb)
+
+        def fn(env, pol, st, key):
+            ns, buf = algo.collect_rollout(env, pol, st, cb, key)
+            return {"adv": buf.advantages, "ret": buf.returns}
+        tr = trace(fn, env, pol, st, jr.key(0), argnames=["env", "pol", "st", "key"], label="collect_rollout -> advantages/returns")
+        ck.encoded(tr)
+        it = Interp()
+        S = tr.symbols(it)
+        out = tr.run(it, S)
+        w = world_of(it, S, kind, False, True)
+        kO, kAV, kT, kR, kTerm, kI, kP = (keys_of(it, n) for n in ("O", "AV", "T", "R", "Term", "Init", "PReset"))
+        if not (len(kO) == 2 * S_ + 1 and all(len(k) == S_ for k in (kAV, kT, kR, kTerm, kI, kP))):
+            ck.fact(f"gae.collected_rollout.keys@S={S_}", False, "unexpected number of component applications in collect_rollout")
+            continue
+        s = find(S, "st_env_state_env_state_s")
+        c = [find(S, "st_env_state_step_count")[()]]
+        h = S["st_policy_state_h"]
+        g, lam = Fraction(GAMMA), Fraction(1, 2)
+        rs, vs, ds = [], [], []
+        for t in range(S_):
+            K = {"O": kO[2 * t], "B": kO[2 * t + 1], "A": kAV[t], "T": kT[t], "R": kR[t], "Term": kTerm[t], "I": kI[t], "P": kP[t]}
+            R = onpolicy_step(w, s, c, h, K, g)
+            rs.append(R["reward_stored"])
+            vs.append(R["value"])
+            ds.append(R["done"])            # the episode end of the INTERACTION: terminal or truncated
+            s, c, h = R["next_s"], R["next_c"], R["next_h"]
+        last = w.V(h, w.env.observation(s, kO[2 * S_]))[1][()]
+        o = it.o
+        oa = list(out["adv"])
+        gs = []
+        for t in range(S_):
+            nd = o.ite(ds[t], 0, 1)
+            nv = last if t == S_ - 1 else vs[t + 1]
+            nx = 0 if t == S_ - 1 else oa[t + 1]
+            gs.append(core.eq_elem(oa[t], o.add(o.sub(o.add(rs[t], o.mul(o.mul(g, nd), nv)), vs[t]), o.mul(o.mul(g * lam, nd), nx))))
+            gs.append(core.eq_elem(out["ret"][t], o.add(oa[t], vs[t])))
+        A = cc.key_axioms(kO + kAV + kT + kR + kTerm + kI + kP + [S["key"][()]]) + [find(S, "max_episode_steps")[()] >= 1, c[0] >= 0 if False else find(S, "st_env_state_step_count")[()] >= 0]
+        want_adv = []
+        nxt = 0
+        for t in range(S_ - 1, -1, -1):
+            nd = o.ite(ds[t], 0, 1)
+            nv = last if t == S_ - 1 else vs[t + 1]
+            a_t = o.add(o.sub(o.add(rs[t], o.mul(o.mul(g, nd), nv)), vs[t]), o.mul(o.mul(g * lam, nd), nxt))
+            want_adv.insert(0, a_t)
+            nxt = a_t
+        orc = {"adv": np.array(want_adv, dtype=object)}
+        ck.prove(f"gae.collected_rollout_cut_at_episode_ends@S={S_}", A, conj(gs), replay=lambda res: cc.replay_outputs(tr, S, res, uf_apps=it.uf_apps, oracle=orc))
+        ck.witness("witness.truncation_inside_rollout", A + [ds[0], core.neg(w.env.terminal(onpolicy_step(w, find(S, "st_env_state_env_state_s"), [find(S, "st_env_state_step_count")[()]], S["st_policy_state_h"],
+                   {"O": kO[0], "B": kO[1], "A": kAV[0], "T": kT[0], "R": kR[0], "Term": kTerm[0], "I": kI[0], "P": kP[0]}, g)["s2"], kTerm[0]))])
+
+
 def main():
     ck = Check("C03", "GAE")
     ck.mode = "REAL"
@@ -236,6 +300,9 @@ def main():
         sec_vmap(ck)
     with ck.section('post_collect'):
         sec_postcollect(ck)
+    for S_ in ([2] if not ck.thorough else [2, 3]):
+        with ck.section(f'collected_rollout@S={S_}'):
+            sec_collected_rollout(ck, S_)
     ck.finish("RolloutBuffer.compute_returns_and_advantages is traced for each rollout length T and interpreted over z3 reals with rewards, values, "
               "done flags, bootstrap value, gamma and lambda symbolic; the outputs are compared with the GAE recursion of the statement written "
               "independently. Corollaries (lambda=1, lambda=0, cut at done as a 2-safety query, per-environment independence of the vmapped call, "
